@@ -1,7 +1,11 @@
 (* C01 - executable model of PolyLine._Connectivity / SurfaceMesh._Connectivity and of the border API of
    SurfaceMesh (mouette/mesh/datatypes/{linear,surface}.py), plus the two mesh_data.py completions it relies on.
-   Hand-written loops and cache state machine (tied by the correspondence batches); every guard, record layout,
-   slot index, index formula, walk step and the border predicate come from the GENERATED file Gen.v.
+   Hand-written: the loop skeletons, the monadic plumbing and the cache state machine (tied by the correspondence
+   batches; their statement structure is checked strictly by the translator).  GENERATED (Gen.v, every run): every lazy
+   guard, the attributes assigned / cleared, dictionary keys and stored entries (g_*_key, g_*_entry, g_*_add), index
+   formulas (he_idx_*, g_*_idx), argument orders of nested calls (g_*_call(s)), return expressions and branch tests
+   (g_*_ret, g_*_test), the half-edge record layout and the slots read, the walk steps, the border predicate, what the
+   border properties return (gret_*).
    NO proofs in this file. *)
 From Coq Require Import ZArith List Bool.
 Import ListNotations.
@@ -59,17 +63,25 @@ Definition vmap_add (k x : Z) (m : zmap (list Z)) : res (zmap (list Z)) :=
 Definition compute_adjV2V (m : mesh) : res (zmap (list Z)) :=
   foldM (fun acc e =>
            let '(A, B) := e in
-           if A =? B then Err EAssert
-           else do acc1 <- vmap_add A B acc; vmap_add B A acc1)
+           if g_v2v_assert A B
+           then foldM (fun acc kv => vmap_add (fst kv) (snd kv) acc) (g_v2v_adds A B) acc
+           else Err EAssert)
         (m_edges m) (init_vmap (m_nv m)).
 
 (* surface.py:_compute_connectivity, corner dictionaries *)
 Definition corner_step (st : zmap (list Z) * zzmap Z * zmap Z) (cvf : Z * (Z * Z))
   : res (zmap (list Z) * zzmap Z * zmap Z) :=
   let '(v2c, vf2c, f2c) := st in
-  let '(iC, (v, f)) := cvf in
-  do v2c' <- vmap_add v iC v2c;
-  Ok (v2c', zzset (v, f) iC vf2c, match zget f f2c with Some _ => f2c | None => zset f iC f2c end).
+  let '(iC, (elem, adj)) := cvf in     (* v,f = face_corners.element(iC), face_corners.adj(iC) *)
+  let a := g_v2c_add elem adj iC in
+  let e := g_vf_entry elem adj iC in
+  let k := g_f2c_entry elem adj iC in
+  do v2c' <- vmap_add (fst a) (snd a) v2c;
+  Ok (v2c', zzset (fst e) (snd e) vf2c,
+      match zget (g_f2c_test elem adj iC) f2c with
+      | Some _ => if g_f2c_store_when_absent then f2c else zset (fst k) (snd k) f2c
+      | None => if g_f2c_store_when_absent then zset (fst k) (snd k) f2c else f2c
+      end).
 
 Definition corner_pass (m : mesh) : res (zmap (list Z) * zzmap Z * zmap Z) :=
   foldM corner_step (enumerate (m_corners m)) (init_vmap (m_nv m), zzempty, zempty).
@@ -202,9 +214,11 @@ Definition compute_connectivity (m : mesh) (sortflag : bool) : res tables :=
 
 (* linear.py:_compute_edge_id / surface.py:_compute_face_ids *)
 Definition compute_edge_id (m : mesh) : zzmap Z :=
-  fold_left (fun acc iE => zzset (keyify2 (fst (snd iE)) (snd (snd iE))) (fst iE) acc) (enumerate (m_edges m)) zzempty.
+  fold_left (fun acc iE => let e := g_edge_id_entry (fst iE) (snd iE) in zzset (fst e) (snd e) acc)
+            (enumerate (m_edges m)) zzempty.
 Definition compute_face_ids (m : mesh) : lmap Z :=
-  fold_left (fun acc iF => lset (zsort (snd iF)) (fst iF) acc) (enumerate (m_faces m)) [].
+  fold_left (fun acc iF => let e := g_face_id_entry (fst iF) (snd iF) in lset (fst e) (snd e) acc)
+            (enumerate (m_faces m)) [].
 
 (* ------------------------------------------------------------------ the lazy caches *)
 Record cache := mkCache {
@@ -309,29 +323,29 @@ Section Accessors.
 
   (* ---------------- PolyLine._Connectivity *)
   Definition acc_edge_id (u v : Z) : M (option Z) :=
-    doM _ <- guard1 guard_edge_id ;; doM t <- rd c_edge_id ;; ret (zzget (keyify2 u v) t).
+    doM _ <- guard1 guard_edge_id ;; doM t <- rd c_edge_id ;; ret (zzget (g_edge_id_key u v) t).
 
   Definition edge_at (E : Z) : M (Z * Z) := lift (of_opt EIndex (zth (m_edges m) E)).
 
   Definition acc_other_edge_end (E V : Z) : M (option Z) :=
     doM _ <- guard1 guard_other_edge_end ;; doM ab <- edge_at E ;;
     let '(A, B) := ab in
-    ret (if V =? A then Some B else if V =? B then Some A else None).
+    ret (g_other_edge_end V A B).
 
   Definition acc_vertex_to_vertices (V : Z) : M (list Z) :=
     doM _ <- guard1 guard_vertex_to_vertices ;; doM t <- rd c_adjV2V ;; lift (of_opt EKey (zget V t)).
 
   Definition acc_vertex_to_edges (V : Z) : M (list (option Z)) :=
-    doM _ <- guard1 guard_vertex_to_edges ;; doM l <- acc_vertex_to_vertices V ;; mapMM (fun u => acc_edge_id V u) l.
+    doM _ <- guard1 guard_vertex_to_edges ;; doM l <- acc_vertex_to_vertices V ;; mapMM (fun u => let c := g_vertex_to_edges_call V u in acc_edge_id (fst c) (snd c)) l.
 
   Definition acc_edge_to_vertices (E : Z) : M (Z * Z) := doM _ <- guard1 guard_edge_to_vertices ;; edge_at E.
 
   (* ---------------- SurfaceMesh._Connectivity *)
   Definition acc_face_id (vs : list Z) : M (option Z) :=
-    doM _ <- guard1 guard_face_id ;; doM t <- rd c_face_id ;; ret (lget (zsort vs) t).
+    doM _ <- guard1 guard_face_id ;; doM t <- rd c_face_id ;; ret (lget (g_face_id_key vs) t).
 
   Definition acc_vertex_to_corners (V : Z) : M (option (list Z)) :=
-    doM _ <- guard1 guard_vertex_to_corners ;; doM t <- rd c_adjV2Cn ;; ret (zget V t).
+    doM _ <- guard1 guard_vertex_to_corners ;; doM t <- rd c_adjV2Cn ;; ret (zget (g_vertex_to_corners_key V) t).
 
   Definition acc_corner_to_face (C : Z) : M Z :=
     doM _ <- guard1 guard_corner_to_face ;; doM vf <- lift (of_opt EIndex (zth (m_corners m) C)) ;; ret (snd vf).
@@ -341,7 +355,7 @@ Section Accessors.
     match cs with None => raise EType | Some l => mapMM acc_corner_to_face l end.
 
   Definition acc_vertex_to_corner_in_face (V F : Z) : M (option Z) :=
-    doM _ <- guard1 guard_vertex_to_corner_in_face ;; doM t <- rd c_adjVF2Cn ;; ret (zzget (V, F) t).
+    doM _ <- guard1 guard_vertex_to_corner_in_face ;; doM t <- rd c_adjVF2Cn ;; ret (zzget (g_vcif_key V F) t).
 
   Definition acc_corner_field (g : option (attr * comp1)) (slot : nat) (C : Z) : M (option Z) :=
     doM _ <- guard1 g ;; doM c2h <- rd c_Cn2he ;;
@@ -354,7 +368,7 @@ Section Accessors.
   Definition acc_opposite_corner := acc_corner_field guard_opposite_corner slot_opposite_corner.
 
   Definition acc_corner_to_half_edge (C : Z) : M (option (Z * Z)) :=
-    doM _ <- guard1 guard_corner_to_half_edge ;; doM t <- rd c_Cn2he ;; ret (zget C t).
+    doM _ <- guard1 guard_corner_to_half_edge ;; doM t <- rd c_Cn2he ;; ret (zget (g_c2he_key C) t).
 
   Definition acc_half_edge_to_corner (u v : Z) : M (option Z) :=
     doM _ <- guard1 guard_half_edge_to_corner ;; doM he <- rd c_he ;; lift (he_get_default he slot_half_edge_to_corner (key_half_edge_to_corner u v)).
@@ -368,35 +382,38 @@ Section Accessors.
     match zzget (key_direct_face u v) he with Some r => ret (skipn slot_direct_face_from r) | None => ret [None; None; None] end.
 
   Definition acc_edge_to_faces (u v : Z) : M (list (option Z)) :=
-    doM _ <- guard1 guard_edge_to_faces ;; doM a <- acc_direct_face u v ;; doM b <- acc_direct_face v u ;; ret [a; b].
-
-  Definition oz_eqb (a : option Z) (b : Z) : bool := match a with Some x => x =? b | None => false end.
+    doM _ <- guard1 guard_edge_to_faces ;;
+    let '(c1, c2) := g_edge_to_faces_calls u v in
+    doM a <- acc_direct_face (fst c1) (snd c1) ;; doM b <- acc_direct_face (fst c2) (snd c2) ;; ret [a; b].
 
   Definition acc_opposite_face (u v F : Z) : M (option Z) :=
-    doM _ <- guard1 guard_opposite_face ;; doM F1 <- acc_direct_face u v ;; doM F2 <- acc_direct_face v u ;;
-    ret (if oz_eqb F1 F then F2 else if oz_eqb F2 F then F1 else None).
+    doM _ <- guard1 guard_opposite_face ;;
+    let '(c1, c2) := g_opposite_face_calls u v in
+    doM F1 <- acc_direct_face (fst c1) (snd c1) ;; doM F2 <- acc_direct_face (fst c2) (snd c2) ;;
+    ret (g_opposite_face_ret F F1 F2).
 
   Definition unpack3 (l : list (option Z)) : M (option Z * option Z * option Z) :=
     match l with [a; b; c] => ret (a, b, c) | _ => raise EType end.
 
   Definition acc_opposite_face_inds (u v F : Z) : M (list (option Z)) :=
     doM _ <- guard1 guard_opposite_face ;;
-    doM t1 <- acc_direct_face_inds u v ;; doM x1 <- unpack3 t1 ;;
-    doM t2 <- acc_direct_face_inds v u ;; doM x2 <- unpack3 t2 ;;
-    let '(F1, u1, v1) := x1 in
-    let '(F2, v2, u2) := x2 in
-    ret (if oz_eqb F1 F then [F2; u2; v2] else if oz_eqb F2 F then [F1; u1; v1] else [None; None; None]).
+    let '(c1, c2) := g_opposite_face_inds_calls u v in
+    doM t1 <- acc_direct_face_inds (fst c1) (snd c1) ;; doM x1 <- unpack3 t1 ;;
+    doM t2 <- acc_direct_face_inds (fst c2) (snd c2) ;; doM x2 <- unpack3 t2 ;;
+    let '(a0, a1, a2) := x1 in
+    let '(b0, b1, b2) := x2 in
+    ret (g_opposite_face_inds_ret F a0 a1 a2 b0 b1 b2).
 
   Definition face_at (F : Z) : M (list Z) := lift (of_opt EIndex (zth (m_faces m) F)).
 
   Fixpoint common_edge_loop (F1 : list Z) (n iF1 iF2 : Z) (is : list Z) : M (list (option Z)) :=
     match is with
-    | [] => ret [None; None]
+    | [] => ret g_common_edge_default
     | i :: t =>
-        doM A <- lift (of_opt EIndex (zth F1 i)) ;;
-        doM B <- lift (of_opt EIndex (zth F1 ((i + 1) mod n))) ;;
-        doM o <- acc_opposite_face A B iF1 ;;
-        if oz_eqb o iF2 then ret (let k := keyify2 A B in [Some (fst k); Some (snd k)])
+        doM A <- lift (of_opt EIndex (zth F1 (fst (g_common_edge_idx i n)))) ;;
+        doM B <- lift (of_opt EIndex (zth F1 (snd (g_common_edge_idx i n)))) ;;
+        doM o <- (let c := g_common_edge_call A B iF1 iF2 in acc_opposite_face (fst (fst c)) (snd (fst c)) (snd c)) ;;
+        if g_common_edge_test o A B iF1 iF2 then ret (g_common_edge_ret A B iF1 iF2)
         else common_edge_loop F1 n iF1 iF2 t
     end.
   Definition acc_common_edge (iF1 iF2 : Z) : M (list (option Z)) :=
@@ -404,23 +421,30 @@ Section Accessors.
 
   Definition acc_face_to_vertices (F : Z) : M (list Z) := doM _ <- guard1 guard_face_to_vertices ;; face_at F.
 
-  Fixpoint index_of (V : Z) (l : list Z) (i : Z) : option Z :=
-    match l with [] => None | x :: t => if x =? V then Some i else index_of V t (i + 1) end.
+  (* for (i,x) in enumerate(faces[F]): if <test>: return <ret> ; return <default> *)
+  Fixpoint in_face_index_loop (F V : Z) (l : list Z) (i : Z) : option Z :=
+    match l with
+    | [] => g_in_face_index_default
+    | x :: t => if g_in_face_index_test i x F V then g_in_face_index_ret i x F V else in_face_index_loop F V t (i + 1)
+    end.
   Definition acc_in_face_index (F V : Z) : M (option Z) :=
-    doM _ <- guard1 guard_in_face_index ;; doM lF <- face_at F ;; ret (index_of V lF 0).
+    doM _ <- guard1 guard_in_face_index ;; doM lF <- face_at F ;; ret (in_face_index_loop F V lF 0).
 
   Definition acc_face_to_edges (F : Z) : M (list (option Z)) :=
     doM _ <- guard1 guard_face_to_edges ;; doM lF <- face_at F ;;
     let n := zlen lF in
-    mapMM (fun i => doM a <- lift (of_opt EIndex (zth lF i)) ;; doM b <- lift (of_opt EIndex (zth lF ((i + 1) mod n))) ;;
+    mapMM (fun i => doM a <- lift (of_opt EIndex (zth lF (fst (g_face_to_edges_idx i n)))) ;;
+                    doM b <- lift (of_opt EIndex (zth lF (snd (g_face_to_edges_idx i n)))) ;;
                     acc_edge_id a b) (zrange n).
 
   Definition acc_face_to_first_corner (F : Z) : M Z :=
-    doM _ <- guard1 guard_face_to_first_corner ;; doM t <- rd c_adjF2Cn ;; lift (of_opt EKey (zget F t)).
+    doM _ <- guard1 guard_face_to_first_corner ;; doM t <- rd c_adjF2Cn ;;
+    doM c0 <- lift (of_opt EKey (zget (g_ftfc_key F) t)) ;; ret (g_ftfc_ret F c0).
 
   Definition acc_face_to_corners (F : Z) : M (list Z) :=
     doM _ <- guard1 guard_face_to_corners ;; doM lF <- face_at F ;;
-    mapMM (fun i => doM t <- rd c_adjF2Cn ;; doM c <- lift (of_opt EKey (zget F t)) ;; ret (c + i)) (zrange (zlen lF)).
+    mapMM (fun i => doM t <- rd c_adjF2Cn ;; doM c <- lift (of_opt EKey (zget (g_ftc_key F i) t)) ;; ret (g_ftc_elem F c i))
+          (zrange (zlen lF)).
 
   Definition acc_face_to_faces (F : Z) : M (list Z) :=
     doM _ <- guard1 guard_face_to_faces ;; doM cs <- acc_face_to_corners F ;;
@@ -436,12 +460,20 @@ Section Accessors.
     end.
 
   (* _compute_interior_boundary_edges *)
+  (* <list attribute>.append(x) on the pair (interior, boundary) being built *)
+  Definition ib_push (ax : attr * Z) (ib : list Z * list Z) : list Z * list Z :=
+    match fst ax with
+    | A_boundary_edges => (fst ib, snd ib ++ [snd ax])
+    | A_interior_edges => (fst ib ++ [snd ax], snd ib)
+    | _ => ib
+    end.
   Fixpoint ib_edges_loop (es : list (Z * (Z * Z))) (inte bnd : list Z) : M (list Z * list Z) :=
     match es with
     | [] => ret (inte, bnd)
     | (e, (u, v)) :: t =>
-        doM b <- acc_is_edge_on_border u v ;;
-        if b then ib_edges_loop t inte (bnd ++ [e]) else ib_edges_loop t (inte ++ [e]) bnd
+        doM b <- (let c := g_ibe_call e u v in acc_is_edge_on_border (fst c) (snd c)) ;;
+        let ib := ib_push (if g_ibe_test b e u v then g_ibe_then e u v else g_ibe_else e u v) (inte, bnd) in
+        ib_edges_loop t (fst ib) (snd ib)
     end.
   Definition compute_ib_edges : M unit :=
     doM ib <- ib_edges_loop (enumerate (m_edges m)) [] [] ;;
@@ -453,8 +485,17 @@ Section Accessors.
              | Some a => if attr_is_none a s then compute_ib_edges s else (s, Ok tt)
              | None => (s, Ok tt)
              end.
-  Definition acc_boundary_edges : M (list Z) := doM _ <- guard_edges gattr_boundary_edges ;; rd c_bnd_edges.
-  Definition acc_interior_edges : M (list Z) := doM _ <- guard_edges gattr_interior_edges ;; rd c_int_edges.
+  (* return self.<list attribute> *)
+  Definition rd_list (a : attr) : M (list Z) :=
+    match a with
+    | A_boundary_edges => rd c_bnd_edges
+    | A_interior_edges => rd c_int_edges
+    | A_boundary_vertices => rd c_bnd_verts
+    | A_interior_vertices => rd c_int_verts
+    | _ => raise EType
+    end.
+  Definition acc_boundary_edges : M (list Z) := doM _ <- guard_edges gattr_boundary_edges ;; rd_list gret_boundary_edges.
+  Definition acc_interior_edges : M (list Z) := doM _ <- guard_edges gattr_interior_edges ;; rd_list gret_interior_edges.
 
   (* _compute_interior_boundary_vertices *)
   Fixpoint ib_verts_loop (es : list Z) (attr : zmap bool) (bset : list Z) : M (zmap bool * list Z) :=
@@ -463,7 +504,8 @@ Section Accessors.
     | e :: t =>
         doM ab <- edge_at e ;;
         let '(a, b) := ab in
-        ib_verts_loop t (zset b true (zset a true attr)) (set_add b (set_add a bset))
+        ib_verts_loop t (fold_left (fun tb kv => zset (fst kv) (snd kv) tb) (g_ibv_marks a b) attr)
+                        (fold_left (fun s x => set_add x s) (g_ibv_adds a b) bset)
     end.
   Definition vb_get (attr : zmap bool) (x : Z) : bool := match zget x attr with Some b => b | None => false end.
 
@@ -479,7 +521,7 @@ Section Accessors.
              | None => (s, Ok tt)
              end.
   Definition ib_verts_store (r : zmap bool * list Z) : M unit :=
-    let inter := filter (fun x => negb (vb_get (fst r) x)) (zrange (m_nv m)) in
+    let inter := map g_ibv_interior_val (filter (fun x => g_ibv_interior_test (vb_get (fst r) x) x) (zrange (m_nv m))) in
     fun s => (copy_attrs (mkCache None None None None None None None None None None (Some (fst r)) (Some (snd r)) (Some inter))
                          sets_ib_vertices s, Ok tt).
 
@@ -495,10 +537,10 @@ Section Accessors.
              | Some a => if attr_is_none a s then compute_ib_vertices s else (s, Ok tt)
              | None => (s, Ok tt)
              end.
-  Definition acc_boundary_vertices : M (list Z) := doM _ <- guard_verts gattr_boundary_vertices ;; rd c_bnd_verts.
-  Definition acc_interior_vertices : M (list Z) := doM _ <- guard_verts gattr_interior_vertices ;; rd c_int_verts.
+  Definition acc_boundary_vertices : M (list Z) := doM _ <- guard_verts gattr_boundary_vertices ;; rd_list gret_boundary_vertices.
+  Definition acc_interior_vertices : M (list Z) := doM _ <- guard_verts gattr_interior_vertices ;; rd_list gret_interior_vertices.
   Definition acc_is_vertex_on_border (u : Z) : M bool :=
-    doM _ <- guard_verts gattr_is_vertex_on_border ;; doM t <- rd c_vborder ;; ret (vb_get t u).
+    doM _ <- guard_verts gattr_is_vertex_on_border ;; doM t <- rd c_vborder ;; ret (vb_get t (g_is_vertex_on_border_key u)).
 
   Definition acc_clear : M unit := fun s => (copy_attrs empty_cache clears_connectivity s, Ok tt).
   Definition acc_clear_boundary_data : M unit := fun s => (copy_attrs empty_cache clears_boundary s, Ok tt).
